@@ -94,6 +94,34 @@ def theorem_names(prop):
     return names
 
 
+def failing_theorems(prop, errs):
+    """names of the theorems of Props/<prop>.lean that enclose the reported error positions"""
+    path = os.path.join(LEAN, "Compass", "Props", prop + ".lean")
+    starts = []
+    try:
+        for i, line in enumerate(open(path), 1):
+            m = re.match(r"(?:@\[[^\]]*\]\s*)?(?:private\s+|protected\s+)?(?:theorem|lemma|example|def|instance)\s*([^\s:({\[]*)", line)
+            if m:
+                starts.append((i, m.group(1) or "example"))
+    except OSError:
+        return []
+    out = []
+    for e in errs:
+        m = re.match(r"error: \S*Props/" + prop + r"\.lean:(\d+):", e)
+        if not m:
+            continue
+        ln = int(m.group(1))
+        name = None
+        for i, n in starts:
+            if i <= ln:
+                name = n
+            else:
+                break
+        if name and name not in out:
+            out.append(name)
+    return out
+
+
 def scan_forbidden():
     hits = []
     for root, _, files in os.walk(os.path.join(LEAN, "Compass")):
@@ -146,7 +174,11 @@ def lean_stage(prop, tier, log):
         if rc != 0:
             res["build_ok"] = False
             errs = [l for l in out.splitlines() if l.startswith("error:")]
-            res["problems"].append("proof obligations no longer check: " + " | ".join(errs[:8]))
+            failing = failing_theorems(prop, errs)
+            res["failing_theorems"] = failing
+            res["problems"].append("proof obligations no longer check: "
+                                   + (("theorem(s) " + ", ".join(failing[:12]) + " — ") if failing else "")
+                                   + " | ".join(errs[:8]))
             res["build_log"] = tail(out, 80)
     names = theorem_names(prop)
     res["theorems"] = names
